@@ -50,6 +50,13 @@ pub enum MsgFault {
     ArrayTruncate { index: usize, keep: usize },
     /// the k-th object field (document order over all objects) is missing from the message
     FieldDrop { index: usize },
+    /// replace the n-th number token counted from the START of the gate / instruction list
+    ProgramNumReplace { index: usize, with: String },
+    /// the last element of the gate / instruction list arrives `times` more times (duplicated fragment)
+    TailElemDup { times: usize },
+    /// replace the n-th number token counted BACKWARDS from the end of the gate / instruction list
+    /// (cheap on messages of tens of megabytes; damage in the last gates of a large circuit)
+    TailNumReplace { nth_from_end: usize, with: String },
     /// replace the k-th occurrence of a gate/op name
     NameReplace { index: usize, with: String },
     /// storage-level damage of Bristol text
@@ -230,6 +237,91 @@ pub fn apply_fault(msg: &mut Vec<u8>, f: &MsgFault) -> bool {
                 msg.splice(s..e, with.bytes());
             }
         }
+        MsgFault::ProgramNumReplace { index, with } => {
+            let find = |pat: &[u8]| msg.windows(pat.len()).position(|w| w == pat);
+            if let Some(start) = find(b"\"gates\":[").or_else(|| find(b"\"insts\":[")) {
+                let mut i = start;
+                let mut seen = 0usize;
+                while i < msg.len() {
+                    while i < msg.len() && !msg[i].is_ascii_digit() {
+                        i += 1;
+                    }
+                    let b0 = i;
+                    while i < msg.len() && msg[i].is_ascii_digit() {
+                        i += 1;
+                    }
+                    if b0 == i {
+                        break;
+                    }
+                    if seen == *index {
+                        msg.splice(b0..i, with.bytes());
+                        break;
+                    }
+                    seen += 1;
+                }
+            }
+        }
+        MsgFault::TailElemDup { times } => {
+            let find = |pat: &[u8]| msg.windows(pat.len()).rposition(|w| w == pat);
+            if let Some(end) = find(b"],\"output_gates\"").or_else(|| find(b"],\"max_reg_count\"")) {
+                // the last element starts at the last '{' at nesting depth 0 before `end`
+                let mut depth = 0i32;
+                let mut i = end;
+                let mut start = None;
+                while i > 0 {
+                    i -= 1;
+                    match msg[i] {
+                        b'}' => depth += 1,
+                        b'{' => {
+                            depth -= 1;
+                            if depth == 0 {
+                                start = Some(i);
+                                break;
+                            }
+                        }
+                        _ => {}
+                    }
+                }
+                if let Some(st) = start {
+                    let elem: Vec<u8> = msg[st..end].to_vec();
+                    let mut ins = vec![];
+                    for _ in 0..*times {
+                        ins.push(b',');
+                        ins.extend_from_slice(&elem);
+                    }
+                    msg.splice(end..end, ins);
+                }
+            }
+        }
+        MsgFault::TailNumReplace { nth_from_end, with } => {
+            // end of the program array: just before `],"output_gates"` (SSA) or `],"max_reg_count"` (register)
+            let find = |pat: &[u8]| msg.windows(pat.len()).rposition(|w| w == pat);
+            if let Some(end) = find(b"],\"output_gates\"").or_else(|| find(b"],\"max_reg_count\"")) {
+                let mut i = end;
+                let mut seen = 0usize;
+                while i > 0 {
+                    // scan backwards for digit runs
+                    while i > 0 && !msg[i - 1].is_ascii_digit() {
+                        i -= 1;
+                    }
+                    if i == 0 {
+                        break;
+                    }
+                    let e = i;
+                    while i > 0 && msg[i - 1].is_ascii_digit() {
+                        i -= 1;
+                    }
+                    if seen == *nth_from_end {
+                        msg.splice(i..e, with.bytes());
+                        break;
+                    }
+                    seen += 1;
+                    if seen > 64 {
+                        break;
+                    }
+                }
+            }
+        }
         MsgFault::FieldDrop { index } => {
             if let Ok(mut v) = serde_json::from_slice::<serde_json::Value>(msg) {
                 let mut k = 0usize;
@@ -323,6 +415,13 @@ pub struct World {
     /// thread (a long-lived receiver). Their own verdicts are not judged here.
     #[serde(default)]
     pub prior: Vec<World>,
+    /// resource fault on the receiver: while it validates and evaluates, the OS refuses to create
+    /// threads (pthread_create fails with EAGAIN)
+    #[serde(default)]
+    pub no_threads: bool,
+    /// Some(k): the first k thread creations succeed, then the OS refuses
+    #[serde(default)]
+    pub threads_refused_after: Option<u32>,
 }
 
 fn yes() -> bool {
@@ -615,7 +714,7 @@ fn inspect_ssa(c: &Circuit, honest: bool, obs: &mut Obs, seedtag: u64, also_conv
                         }
                     }
                 }
-                if also_convert {
+                if also_convert && c.gates.len() <= 300_000 {
                     // "validation accepts every circuit produced by the SSA-to-register conversion"
                     match guarded(|| rc::Circuit::from(c)) {
                         Err(_) => bump(&mut obs.counters, "conversion_panicked_on_accepted_ssa"),
@@ -833,6 +932,14 @@ fn receive(w: &World, ch: Channel, msg: &[u8], honest: bool, orig_hash: Option<u
     }
 }
 
+/// honest message of the current case's subject (large subjects take seconds to compile and
+/// serialise; cleared at the start of every case)
+static MESSAGE_CACHE: std::sync::Mutex<Option<(String, Vec<u8>, u64)>> = std::sync::Mutex::new(None);
+
+pub fn clear_message_cache() {
+    *MESSAGE_CACHE.lock().unwrap_or_else(|e| e.into_inner()) = None;
+}
+
 fn run_world_inner(w: &World) -> Obs {
     for earlier in &w.prior {
         let mut e = earlier.clone();
@@ -845,28 +952,39 @@ fn run_world_inner(w: &World) -> Obs {
         (raw.clone(), None)
     } else {
         let Some(prog) = &w.program else { return obs };
-        let (ssa, reg) = match compile_both(prog, w.dedup) {
-            Ok(x) => x,
-            Err(e) => {
-                bump(&mut obs.counters, "subject_did_not_compile");
-                obs.summary = e;
-                return obs;
-            }
-        };
-        obs.executions += 1;
-        let oh = match w.channel {
-            Channel::JsonReg | Channel::JsonTypeReg => match &reg {
-                Some(reg) => value_hash(1, &flatten(&CircuitType::Register(reg.clone()))),
-                None => 0,
-            },
-            _ => value_hash(0, &flatten(&CircuitType::Ssa(ssa.clone()))),
-        };
-        match honest_message(&ssa, &reg, w.channel) {
-            Ok(m) => (m, Some(oh)),
-            Err(e) => {
-                bump(&mut obs.counters, "subject_not_sendable");
-                obs.summary = e;
-                return obs;
+        let key = format!("{}|{:?}|{}", w.dedup, w.channel, prog.src);
+        let cached = MESSAGE_CACHE.lock().unwrap_or_else(|e| e.into_inner()).as_ref().filter(|(k, _, _)| *k == key).map(|(_, m, h)| (m.clone(), *h));
+        if let Some((m, h)) = cached {
+            (m, Some(h))
+        } else {
+            let (ssa, reg) = match compile_both(prog, w.dedup) {
+                Ok(x) => x,
+                Err(e) => {
+                    bump(&mut obs.counters, "subject_did_not_compile");
+                    obs.summary = e;
+                    return obs;
+                }
+            };
+            obs.executions += 1;
+            let oh = match w.channel {
+                Channel::JsonReg | Channel::JsonTypeReg => match &reg {
+                    Some(reg) => value_hash(1, &flatten(&CircuitType::Register(reg.clone()))),
+                    None => 0,
+                },
+                _ => value_hash(0, &flatten(&CircuitType::Ssa(ssa.clone()))),
+            };
+            match honest_message(&ssa, &reg, w.channel) {
+                Ok(m) => {
+                    if m.len() > (1 << 20) {
+                        *MESSAGE_CACHE.lock().unwrap_or_else(|e| e.into_inner()) = Some((key, m.clone(), oh));
+                    }
+                    (m, Some(oh))
+                }
+                Err(e) => {
+                    bump(&mut obs.counters, "subject_not_sendable");
+                    obs.summary = e;
+                    return obs;
+                }
             }
         }
     };
@@ -879,7 +997,9 @@ fn run_world_inner(w: &World) -> Obs {
         }
     }
     let honest = !changed && w.raw_message.is_none() && w.channel != Channel::Bristol;
+    seams::refuse_threads_after(if w.no_threads { Some(0) } else { w.threads_refused_after });
     receive(w, w.channel, &msg, honest, orig_hash, &mut obs, seedtag);
+    seams::refuse_threads(false);
     obs
 }
 
@@ -932,6 +1052,9 @@ pub fn run_world(w: &World) -> Obs {
 
 pub struct Tier {
     pub honest: u64,
+    /// circuits of more than 2^20 gates with damage in their last gates, also while the OS
+    /// refuses to create threads
+    pub large: u64,
     pub sweep: u64,
     pub seeded: u64,
     pub bristol: u64,
@@ -939,9 +1062,9 @@ pub struct Tier {
 
 pub fn tier(t: &str) -> Tier {
     if t == "thorough" {
-        Tier { honest: 8_000, sweep: 400, seeded: 64_000, bristol: 20_000 }
+        Tier { honest: 8_000, large: 16, sweep: 400, seeded: 64_000, bristol: 20_000 }
     } else {
-        Tier { honest: 400, sweep: 40, seeded: 2_500, bristol: 750 }
+        Tier { honest: 400, large: 1, sweep: 40, seeded: 2_500, bristol: 750 }
     }
 }
 
@@ -955,12 +1078,12 @@ impl CasePlan {
         Ok(CasePlan { corpus: load_corpus()?, tier: tier(t) })
     }
     pub fn n_cases(&self) -> u64 {
-        self.tier.honest + self.tier.sweep + self.tier.seeded + self.tier.bristol
+        self.tier.honest + self.tier.large + self.tier.sweep + self.tier.seeded + self.tier.bristol
     }
     pub fn family(&self, idx: u64) -> (&'static str, u64) {
         let t = &self.tier;
         let mut i = idx;
-        for (name, n) in [("honest", t.honest), ("sweep", t.sweep), ("seeded", t.seeded), ("bristol", t.bristol)] {
+        for (name, n) in [("honest", t.honest), ("large", t.large), ("sweep", t.sweep), ("seeded", t.seeded), ("bristol", t.bristol)] {
             if i < n {
                 return (name, i);
             }
@@ -1132,6 +1255,123 @@ fn absorb_batch(obs: &[Obs], ws: &[World], acc: &mut Acc) {
         absorb(o, w, acc);
         for p in acc.pending.iter_mut().skip(before) {
             p.2 = ws[..j].to_vec();
+        }
+    }
+}
+
+/// Large circuits (> 2^20 gates): the honest message goes through the full receiver path once;
+/// damage in the last gates is then applied to the deserialised circuit value directly (cloning
+/// 60 MB is far cheaper than re-parsing 50 MB of JSON 100 times). Each variant corresponds exactly
+/// to a `TailNumReplace` fault on the message, which is what its replay file contains and what
+/// the confirmation in a fresh process executes through the full path.
+fn run_large(base: &World, acc: &mut Acc) {
+    use garble_lang::circuit::Gate;
+    let keys = base.keys;
+    let b = base.clone();
+    let seedtag = tag(base.program.as_ref().map(|p| p.src.as_str()).unwrap_or("raw"));
+    let result = run_party(keys, move || {
+        let mut out: Vec<(World, Obs)> = vec![];
+        seams::reset_world();
+        // full path, fault-free, with and without thread creation
+        for no_threads in [false, true] {
+            let mut w = b.clone();
+            w.no_threads = no_threads;
+            let o = guarded(|| run_world_inner(&w)).unwrap_or_default();
+            out.push((w, o));
+        }
+        let Some(msg) = damaged_message(&b) else { return out };
+        let Ok(honest) = serde_json::from_slice::<Circuit>(&msg) else { return out };
+        drop(msg);
+        let value: usize = 4_000_000_000;
+        let arity = |g: &Gate| match g {
+            Gate::Not(_) => 1usize,
+            _ => 2,
+        };
+        let set_op = |g: &mut Gate, op: usize, value: usize| match (g, op) {
+            (Gate::Xor(x, _), 0) | (Gate::And(x, _), 0) | (Gate::Not(x), 0) => *x = value,
+            (Gate::Xor(_, y), _) | (Gate::And(_, y), _) => *y = value,
+            _ => {}
+        };
+        let mut run_variant = |c: &Circuit, w: World, out: &mut Vec<(World, Obs)>| {
+            let mut o = Obs::default();
+            seams::refuse_threads_after(if w.no_threads { Some(0) } else { w.threads_refused_after });
+            if let Ok(o2) = guarded(|| {
+                let mut o2 = Obs::default();
+                inspect_ssa(c, false, &mut o2, seedtag, false);
+                o2
+            }) {
+                o = o2;
+            }
+            seams::refuse_threads_after(None);
+            bump(&mut o.counters, "large_variants");
+            out.push((w, o));
+        };
+        let n = honest.gates.len();
+        // (a) the last 24 gates, token n (counted from the end) <-> (gate, operand)
+        let mut nth = 0usize;
+        'gates: for back in 0..n.min(24) {
+            let gi = n - 1 - back;
+            for op in (0..arity(&honest.gates[gi])).rev() {
+                let mut c = honest.clone();
+                set_op(&mut c.gates[gi], op, value);
+                let mut w = b.clone();
+                w.faults = vec![MsgFault::TailNumReplace { nth_from_end: nth, with: value.to_string() }];
+                run_variant(&c, w, &mut out);
+                nth += 1;
+                if nth > 60 {
+                    break 'gates;
+                }
+            }
+        }
+        // (b) every residue of the gate count modulo 8: the last gate arrives t more times, and
+        //     the (new) last gate carries the damage
+        if let Some(last) = honest.gates.last().cloned() {
+            for t in 1..8usize {
+                let mut c = honest.clone();
+                for _ in 0..t {
+                    c.gates.push(last.clone());
+                }
+                let li = c.gates.len() - 1;
+                let op = arity(&c.gates[li]) - 1;
+                set_op(&mut c.gates[li], op, value);
+                let mut w = b.clone();
+                w.faults = vec![MsgFault::TailElemDup { times: t }, MsgFault::TailNumReplace { nth_from_end: 0, with: value.to_string() }];
+                run_variant(&c, w, &mut out);
+            }
+        }
+        // (c) the OS runs out of threads after k creations, and the damage sits in the middle of
+        //     each eighth of the gate list (token index from the start = sum of earlier arities)
+        let mut prefix = vec![0usize; 9];
+        {
+            let mut tok = 0usize;
+            let mut next = 0usize;
+            for (gi, g) in honest.gates.iter().enumerate() {
+                while next < 8 && gi == n * (2 * next + 1) / 16 {
+                    prefix[next] = tok;
+                    next += 1;
+                }
+                tok += arity(g);
+            }
+        }
+        for k in 0..8u32 {
+            for j in 0..8usize {
+                let gi = n * (2 * j + 1) / 16;
+                if gi >= n {
+                    continue;
+                }
+                let mut c = honest.clone();
+                set_op(&mut c.gates[gi], 0, value);
+                let mut w = b.clone();
+                w.threads_refused_after = Some(k);
+                w.faults = vec![MsgFault::ProgramNumReplace { index: prefix[j], with: value.to_string() }];
+                run_variant(&c, w, &mut out);
+            }
+        }
+        out
+    });
+    if let Ok(list) = result {
+        for (w, o) in &list {
+            absorb(o, w, acc);
         }
     }
 }
@@ -1346,7 +1586,7 @@ pub fn stream_len(family: &str) -> usize {
 
 fn draw_world(plan: &CasePlan, family: &str, idx: u64, keys: Keys, p: &mut Prng) -> World {
     let dedup = p.chance(3, 4);
-    let mut w = World { program: None, dedup, keys, channel: Channel::JsonSsa, faults: vec![], raw_message: None, prior: vec![] };
+    let mut w = World { program: None, dedup, keys, channel: Channel::JsonSsa, faults: vec![], raw_message: None, prior: vec![], no_threads: false, threads_refused_after: None };
     match family {
         "honest" => {
             // compiler / converter outputs must be accepted (fault-free channel)
@@ -1367,6 +1607,11 @@ fn draw_world(plan: &CasePlan, family: &str, idx: u64, keys: Keys, p: &mut Prng)
             };
             w.program = Some(prog);
             w.channel = *p.pick(&[Channel::JsonSsa, Channel::JsonReg, Channel::JsonTypeSsa, Channel::JsonTypeReg]);
+        }
+        "large" => {
+            w.program = Some(ProgSpec { name: "huge".into(), src: gen::huge_program(p), consts: vec![] });
+            w.dedup = true;
+            w.channel = Channel::JsonSsa;
         }
         "sweep" => {
             let (_, sub) = plan.family(idx);
@@ -1490,8 +1735,12 @@ pub fn run_case(plan: &CasePlan, seed: u64, idx: u64) -> CaseResult {
     acc.d.u64(idx);
     acc.d.str(&serde_json::to_string(&w).unwrap());
     let mut p = p;
+    clear_message_cache();
     if family == "sweep" {
         run_sweep(&w, &mut acc);
+    } else if family == "large" {
+        run_large(&w, &mut acc);
+        *acc.counters.entry("threads_refused_to_code_under_test".into()).or_insert(0) += seams::THREADS_REFUSED.swap(0, std::sync::atomic::Ordering::Relaxed);
     } else {
         // the receiver handles a stream of messages on one thread (a long-lived receiver)
         let mut stream = vec![w.clone()];
